@@ -537,6 +537,10 @@ func cpuGenIntr(c *ctx, x *cpuRun) {
 		for ifl := 0; ifl < 32; ifl++ {
 			for ime := 0; ime < 2; ime++ {
 				rs := randRegs(r)
+				if r.chance(15) {
+					// the two stack writes of the dispatch land on IE / IF themselves
+					rs.sp = []uint16{0x0000, 0x0001, 0x0002, 0xff10, 0xff11, 0xff0f}[r.intn(6)]
+				}
 				x.do("reset")
 				x.program(rs.pc, []uint8{0x04, 0x0c, 0x14, 0x1c, 0x24}) // INC B, C, D, E, H
 				x.setRegs(rs)
@@ -544,9 +548,12 @@ func cpuGenIntr(c *ctx, x *cpuRun) {
 				for k := 0; k < 7; k++ {
 					x.do("c 1")
 				}
-				x.do(fmt.Sprintf("peek %04x", rs.sp-1))
-				x.do(fmt.Sprintf("peek %04x", rs.sp-2))
-				c.class(fmt.Sprintf("disp/%02x/%02x/%d", ie, ifl, ime))
+				special := rs.sp <= 2 || rs.sp >= 0xff00
+				if !special { // (IE and IF are part of the state line; other I/O registers are not in this mode's model)
+					x.do(fmt.Sprintf("peek %04x", rs.sp-1))
+					x.do(fmt.Sprintf("peek %04x", rs.sp-2))
+				}
+				c.class(fmt.Sprintf("disp/%02x/%02x/%d/%v", ie, ifl, ime, special))
 			}
 		}
 	}
